@@ -9,9 +9,11 @@ type Shape struct {
 }
 
 var Shapes = []Shape{
+	{"prefix", []string{`(?:ab*){2}`, `(c[ab]){2,}`, `(?:ab){2}c`, `(?:ab*){2,3}`, `(abcd)|(abx)|(abcd)`, `abcd|abx|abcd`, `(?i)(?:abc)*`, `(?i)(abc)?`, `(?i)(?:abc){0,2}`, `(?:abc)*`, `(?:ab)?c`, `abc|abd|ab`, `(?i)abc|abd`, `ab(?:c|d)e`}},
 	{"landmark", []string{`\w+[bB]{1,2}[abAB]\z`, `[ab]*[a-c]{1,2}\w*a{1,2}$`, `\w+\s+at\s+\w+`, `\d+-\d+`, `[a-c]+x[a-c]+`}},
 	{"bumpalong", []string{`(?>[ab]+?[^a]+)[^a]?\Z`, `(?>a+?b)c`, `(?>(?:a+?b))c`, `a*b`, `.*b`, `.*?b`, `(?s).*a`, `\w*1`}},
 	{"findmode-anchor", []string{`\Aab`, `\Gab`, `ab\z`, `a.c$`, `^ab`, `(?m)^ab`, `ab$`, `(?m)ab$`, `\Ga`, `^`, `\z`, `a\Z`}},
+	{"findmode-bm", []string{`éab`, `aéb`, `abé`, `ёab`, `aёb`, `éab\d`, `\x{10000}ab`, `aab`, `aba`, `abab`, `éaé`, `ÿab`, `a\x80b`, `(?i)éab`, `(?i)abé`, `abcab`, `éa`, `bé`}},
 	{"findmode-prefix", []string{`abc.*`, `(?i)abc\d`, `abc|abd|xyz`, `abab`, `aab`, `abcab`, `éa`, `ab|cd`, `abc|abd`, `(?i)ab|cd`, `aa|ab|ba`}},
 	{"findmode-set", []string{`[ab]c`, `.b[cd]`, `..ab`, `[^a]b`, `[a-c]x`, `\d[ab]`, `[ab][cd][ab]`, `a[bc]d`, `\w\d`, `(?i)[ab]c`}},
 	{"findmode-literalafterloop", []string{`\w+@x`, `[a-c]*:d`, `a*b`, `[ab]*c`, `\d*x`, `[ab]+cd`}},
@@ -24,6 +26,7 @@ var Shapes = []Shape{
 	{"opcodes", []string{`(?:ab){2,3}`, `(?:ab){2,}?`, `(?:a|ab){1,2}?c`, `(a)?(?(1)b|c)`, `(?(?=a)ab|cd)`, `(a|b)\1`, `(?<n>a)\k<n>`, `(a)|\1b`, `(?<=(a)b)c`,
 		`(a+)\1`, `(?:a(b))*`, `((a)|(b))*c`, `(a)(?!b)`, `(?<!a)b`, `(?<=a)b`, `(?<=ab)c`, `(?<!ab)c`, `(?=(a))ab`, `(?!a)\w`, `(a)*`, `(a|b)+`, `(?:(a)|b)*`,
 		`(?:ab)+`, `(?:ab)+?c`, `(?:a|b)*?c`, `(ab){2}`, `(?:ab){0,2}c`, `(a)(b)?\2`, `(?(1)a|b)`, `(a)?(?(1)a|b)c`}},
+	{"stackdeep", []string{`a*b*c*d*`, `a+b+c+d+`, `x(?<=a*b*c*x)`, `[ab]*[bc]*[cd]*`, `a*?b*?c*?d`, `(?<=a+b+)c`, `\w*\d*a*b*`}},
 	{"stacklimit", []string{`(?:a|b|c|d)*e`, `((a)|(b))*c`, `(?:a?){3}a{3}`, `(a*)*b`, `(a|b)*c`, `(?:a*a*)*b`}},
 	{"zerowidth", []string{`a*`, `\b`, `(?=a)`, `\G`, `\Ga*`, `(?<=a)`, `^|$`, `a*?`, `(?:)`, `$`, `a?`, `(?m)^`, `(?m)$`, `\B`, `b*|a`, `(a)?`, `\Ga`, `(?<=\Ga)`, `a|`, `(?!a)`, `\b|a`}},
 	{"anchors", []string{`^a`, `a$`, `(?m)^a`, `(?m)a$`, `\Aa`, `a\Z`, `a\z`, `\ba`, `a\b`, `\Ba`, `a\B`, `\Ga`, `^$`, `(?m)^$`, `a$\n`, `a\Z\n`, `(?s)a.$`}},
@@ -65,6 +68,87 @@ func ShapesOf(mechs ...string) []Pat {
 				}
 			}
 		}
+	}
+	return out
+}
+
+// LoopSucc is the systematic product "single-character loop x successor x tail"
+// that the auto-atomic / coalescing / bump-along / prefix analyses decide on
+// (every One/Notone/Set loop kind against One/Notone/Set/Multi/anchor/boundary/
+// nullable-loop/lookaround successors, overlapping and disjoint). keep = 1/keep of
+// the product is returned (chosen by hash with seed); keep <= 1 returns all.
+func LoopSucc(keep, seed int) []Pat {
+	loops := []string{`a*`, `a+`, `a*?`, `a+?`, `[^a]*`, `[^a]+`, `[^a]*?`, `[ab]*`, `[ab]+?`, `\w*`, `.*`, `.*?`, `a{1,2}`, `[^a]{0,2}`, `\d+`, `(?:ab)*`}
+	succs := []string{`a`, `b`, `[^a]`, `[^b]`, `[ab]`, `[bc]`, `ab`, `ba`, `$`, `\b`, `a?`, `b?`, `a*`, `b*`, `[^a]?`, `[ab]?`, `a?b`, `b?a`, `(?:a|b)`, `\n?`, `(?=a)`, `(?!a)`, `a{0,2}b`, `\d`, `\w`, `(a)`, `(?:a|[^a])`, `a|b`}
+	tails := []string{``, `b`, `c`, `$`, `\w`}
+	var out []Pat
+	for _, l := range loops {
+		for _, s := range succs {
+			for _, t := range tails {
+				p := l + s + t
+				if s == `a|b` {
+					p = l + `(?:` + s + `)` + t
+				}
+				if keep > 1 && hashStr(p, seed)%uint64(keep) != 0 {
+					continue
+				}
+				out = append(out, FromText(p, 0, "shape:loopsucc"))
+			}
+		}
+	}
+	return out
+}
+
+// AltPrefix is the systematic product for alternation prefix factoring: two or
+// three branches that start with the same / a similar literal, set or loop.
+func AltPrefix(keep, seed int) []Pat {
+	heads := []string{`a`, `ab`, `[ab]`, `[^a]`, `\d`, `a{2}`, `[ab]{2}`, `\d{2}`, `[^,]{2}`, `a*`, `[ab]+`}
+	vars := []string{``, `{2,3}`, `{2,}`, `+`, `?`}
+	tails := [][2]string{{`b`, `c`}, {`-`, `x`}, {``, `b`}, {`b`, ``}, {`;`, `!`}}
+	var out []Pat
+	for _, h := range heads {
+		for _, v := range vars {
+			for _, t := range tails {
+				h2 := h
+				if v != `` {
+					// second branch: same head with a different repeat
+					base := h
+					if i := len(base) - 1; base[i] == '}' || base[i] == '*' || base[i] == '+' {
+						for i >= 0 && base[i] != '{' && base[i] != '*' && base[i] != '+' {
+							i--
+						}
+						base = base[:i]
+					}
+					h2 = base + v
+				}
+				for _, wrap := range []string{`%s|%s`, `^(?:%s|%s)$`, `(?>%s|%s)z`} {
+					p := sprintf2(wrap, h+t[0], h2+t[1])
+					if keep > 1 && hashStr(p, seed)%uint64(keep) != 0 {
+						continue
+					}
+					out = append(out, FromText(p, 0, "shape:altprefix"))
+				}
+			}
+		}
+	}
+	return out
+}
+
+func sprintf2(f, a, b string) string {
+	out := ""
+	k := 0
+	for i := 0; i < len(f); i++ {
+		if f[i] == '%' && i+1 < len(f) && f[i+1] == 's' {
+			if k == 0 {
+				out += a
+			} else {
+				out += b
+			}
+			k++
+			i++
+			continue
+		}
+		out += string(f[i])
 	}
 	return out
 }
